@@ -181,6 +181,26 @@ func RunC09(c *Ctx, r *Report) {
 					}
 				}
 			}
+			// ... or the same number spelled (factor.BitLen() + 7) / 8
+			if q, ok := d.Fields["factorBytesLength"].(*ssa.BinOp); ok && q.Op == token.QUO {
+				if k8, ok := q.Y.(*ssa.Const); ok {
+					if v8, _ := constInt64(k8.Value); v8 == 8 {
+						if sum, ok := q.X.(*ssa.BinOp); ok && sum.Op == token.ADD {
+							x, y := sum.X, sum.Y
+							if _, isK := x.(*ssa.Const); isK {
+								x, y = y, x
+							}
+							if k7, ok := y.(*ssa.Const); ok {
+								if v7, _ := constInt64(k7.Value); v7 == 7 {
+									if bc := staticCallTo(x, "(*math/big.Int).BitLen"); bc != nil && bc.Call.Args[0] == d.Fields["factor"] {
+										okLen = true
+									}
+								}
+							}
+						}
+					}
+				}
+			}
 			if !okLen {
 				bad = append(bad, "factorBytesLength is not len(factor.Bytes()) of the same factor")
 			}
@@ -321,21 +341,44 @@ func (c *Ctx) dhMethodShape(m *ssa.Function, mn string) (bool, string) {
 	// result = zeros(factorBytesLength - len(x)) | x, by append(make(L-len(x)), x...) or by copying x into the
 	// tail of make(L)
 	f := c.NewFA(m)
-	parts, okP := c.concatOf(f, rets[0].Results[0], rets[0], 0)
-	if !okP || len(parts) != 2 || parts[0].Kind != "zeros" || parts[1].Kind != "slice" {
-		if okP {
-			return false, "result is " + partsString(f, parts) + ", expected zeros(L - len(x)) | x"
+	recv0 := m.Params[0]
+	// ... or by big.Int.FillBytes into a fresh buffer of factorBytesLength octets (the library's own "big-endian,
+	// zero-extended on the left"; it panics rather than truncates when the value does not fit)
+	var fillExp *ssa.Call
+	if fb := staticCallTo(rets[0].Results[0], "(*math/big.Int).FillBytes"); fb != nil && len(fb.Call.Args) == 2 {
+		mk, isMk := fb.Call.Args[1].(*ssa.MakeSlice)
+		if !isMk {
+			return false, "FillBytes does not write into a freshly made buffer"
 		}
-		return false, "result is not zeros | x (append onto a fresh zero slice, or a copy into the tail of a fresh buffer)"
+		if b, fld, ok := fieldLoad(mk.Len); !ok || b != ssa.Value(recv0) || fld != "factorBytesLength" {
+			return false, "the buffer FillBytes writes is not factorBytesLength octets long"
+		}
+		fillExp = staticCallTo(fb.Call.Args[0], "(*math/big.Int).Exp")
+		if fillExp == nil {
+			return false, "the value FillBytes writes is not Exp(...)"
+		}
 	}
-	x := parts[1].Val
-	bytesCall := staticCallTo(x, "(*math/big.Int).Bytes")
-	if bytesCall == nil {
-		return false, "x is not big.Int.Bytes()"
-	}
-	exp := staticCallTo(bytesCall.Call.Args[0], "(*math/big.Int).Exp")
+	var parts []cpart
+	var x ssa.Value
+	exp := fillExp
 	if exp == nil {
-		return false, "x is not Exp(...).Bytes()"
+		var okP bool
+		parts, okP = c.concatOf(f, rets[0].Results[0], rets[0], 0)
+		if !okP || len(parts) != 2 || parts[0].Kind != "zeros" || parts[1].Kind != "slice" {
+			if okP {
+				return false, "result is " + partsString(f, parts) + ", expected zeros(L - len(x)) | x"
+			}
+			return false, "result is not zeros | x (append onto a fresh zero slice, or a copy into the tail of a fresh buffer)"
+		}
+		x = parts[1].Val
+		bytesCall := staticCallTo(x, "(*math/big.Int).Bytes")
+		if bytesCall == nil {
+			return false, "x is not big.Int.Bytes()"
+		}
+		exp = staticCallTo(bytesCall.Call.Args[0], "(*math/big.Int).Exp")
+		if exp == nil {
+			return false, "x is not Exp(...).Bytes()"
+		}
 	}
 	if _, isNew := exp.Call.Args[0].(*ssa.Alloc); !isNew {
 		return false, "Exp writes into an existing big.Int"
@@ -363,6 +406,9 @@ func (c *Ctx) dhMethodShape(m *ssa.Function, mn string) (bool, string) {
 	}
 	if !isRecvField(exp.Call.Args[3], "factor") {
 		return false, "the modulus is not the group's own factor"
+	}
+	if fillExp != nil {
+		return true, "new(big.Int).Exp(base, secret, factor).FillBytes(make([]byte, factorBytesLength))"
 	}
 	// zeros length = factorBytesLength - len(x)
 	var fbl ssa.Value
